@@ -8,7 +8,7 @@
     independent of the adapter's log); [last_persist pid h None] the session last persisted under
     [pid]; [selected s p] = shouldIncludePacket(session rooms, packet options).
     Hypothesis about the id generator (yeast): ids along a history are distinct. *)
-From SioV Require Import Base.GoSem Adapter.Session Adapter.SessionProofs Adapter.SessionConc Adapter.SessionConcProofs.
+From SioV Require Import Base.GoSem Adapter.Session Adapter.SessionProofs Adapter.SessionConc Adapter.SessionConcProofs Adapter.SessionSlice Adapter.SessionSliceProofs.
 Open Scope Z_scope.
 
 (** A successful restore returns exactly the selected packets emitted after the offset packet, in
@@ -245,3 +245,46 @@ Example C08_log_after_delivery_gap :
              (crun (c08_g false) [SBegin; SReconnect; SEnd; SAppend] (cinit c08_st0))
   = Some (3%nat, true, true, true, false, 0%nat).
 Proof. vm_compute. reflexivity. Qed.
+
+(** ** The log as a Go slice: RestoreSession against clean-up passes that trim IN PLACE
+    (Adapter/SessionSlice.v: heap of backing arrays, append in place / reallocation,
+    slices.Delete shifting left and nil-ing the tail; the restore = lookup, filter steps, end). *)
+
+(** The slice-level clean-up pass is the abstract one. *)
+Theorem C08_slice_clean_refines : forall W now s, wf s ->
+  wf (sl_clean W now s) /\ sl_abs (sl_clean W now s) = clean_packets W now (sl_abs s).
+Proof. intros W now s H. destruct (clean_spec W now s H) as [A [B _]]. split; assumption. Qed.
+
+(** Filtering under the lock (the code as it is) or on a private copy: for EVERY interleaving of the
+    restore's sub-steps with clean-up passes and broadcasts, the answer is the sequential
+    RestoreSession's answer on the log as it was at the lookup - a consistent snapshot; in
+    particular never a nil dereference, never a skipped or foreign packet. *)
+Theorem C08_restore_consistent_snapshot : forall W rooms off m l sched s r,
+  m <> Alias ->
+  rrun m W rooms off sched (rinit l) = Some s -> rs_res s = Some r ->
+  exists l', rs_snap s = Some l' /\ r = snapshot_answer rooms off l'.
+Proof. exact restore_consistent. Qed.
+
+(** Filtering the sub-slice a.packets[index+1:] without the lock: REFUTED - a pass that trims one
+    expired packet and a broadcast that refills the freed slot make the restore skip packet 3
+    (reported recovered with a gap) ... *)
+Definition c08_l0 : list ppacket :=
+  [mkPkt 1 0 (mkOpts [1%N] []); mkPkt 2 10 (mkOpts [1%N] []); mkPkt 3 10 (mkOpts [1%N] []);
+   mkPkt 4 10 (mkOpts [1%N] []); mkPkt 5 10 (mkOpts [1%N] [])].
+
+Theorem C08_restore_alias_gap_refuted :
+  exists sched s ms, rrun Alias 5 [1%N] 2%N sched (rinit c08_l0) = Some s /\
+    rs_res s = Some (Ok ms) /\ map p_id ms = [4%N; 5%N; 6%N] /\
+    forall l', In l' (logs_at_lookup s) -> Ok ms <> snapshot_answer [1%N] 2%N l'.
+Proof.
+  exists [TFind; TClean 10; TBroadcast (mkPkt 6 10 (mkOpts [1%N] [])); TFilter; TFilter; TFilter; TEnd].
+  eexists. eexists. split; [vm_compute; reflexivity|]. split; [reflexivity|]. split; [reflexivity|].
+  intros l' [<-|[]]. vm_compute. discriminate.
+Qed.
+
+(** ... and without the refill the restore dereferences a nil slot (panic in Namespace.add). *)
+Theorem C08_restore_alias_panic_refuted :
+  exists sched s, rrun Alias 5 [1%N] 2%N sched (rinit c08_l0) = Some s /\ rs_res s = Some Panic.
+Proof.
+  exists [TFind; TClean 10; TFilter; TFilter; TFilter]. eexists. vm_compute. split; reflexivity.
+Qed.
